@@ -2801,6 +2801,10 @@ TARGETS = [
     Target("eb", strat_eb, run_eb, _cfgs(["base256"], ["base256", "fb-163", "fb-233", "fb-409", "fb-571"]), quick=14000, thorough=40000),
     Target("fp", strat_fp, run_fp, _cfgs(["base256"], ["base256", "p255", "p381", "fp-basic"]), quick=20000, thorough=80000),
     Target("ed", strat_ed, run_ed, _cfgs(["p255"], ["p255"]), quick=8000, thorough=60000),
+    # prime-curve and field codecs over 2^255 - 19 in the quick tier as well: floor(R / p) is even there, so the parity of
+    # the Montgomery form of 1 differs from all 256-bit primes (the thorough tier has p255 in the main `ep` / `fp` lists)
+    Target("ep-255", strat_ep, run_ep, _cfgs(["p255"], []), quick=5000, thorough=1),
+    Target("fp-255", strat_fp, run_fp, _cfgs(["p255"], []), quick=3000, thorough=1),
     # 16 libFuzzer campaigns (one per job; the campaign runs while the strategy is built, its crash artefacts and a
     # sample of its corpus are the cases); thorough tier only
     Target("fuzz", strat_fuzz, run_fuzz, _cfgs([], [FUZZ_CFG]), quick=1, thorough=16 * 2500 - 2000),
